@@ -1216,22 +1216,9 @@ theorem normalize_lines (tab : Nat) (ls : List Str) (hne : ls ≠ []) (h : ∀ l
     · have : c = '\n' := by simpa using hc
       subst this; decide
   rw [normalize_eq, h1, h2, h3]
-  -- the first line is scanned in the state "not after a line feed"
-  obtain ⟨l, r, rfl⟩ : ∃ l r, ls = l :: r := by
-    cases ls with
-    | nil => exact absurd rfl hne
-    | cons l r => exact ⟨l, r, rfl⟩
-  have hnl := (lineSafe_facts (h l List.mem_cons_self)).1
-  have hsafe : wsSafe none (joinLines (l :: r) ++ ['\n', '\n']) = true := by
-    cases r with
-    | nil =>
-      have : joinLines [l] = l := rfl
-      rw [this, wsSafe_none_line l _ hnl]; decide
-    | cons l' r' =>
-      rw [joinLines_cons_cons, List.append_assoc, wsSafe_none_line l _ hnl, List.cons_append]
-      simp only [wsSafe, if_true]
-      exact wsSafe_lines (l' :: r') (fun x hx => h x (List.mem_cons_of_mem _ hx))
-  have := wsLinesAux_safe _ none hsafe
+  -- since the repair a0e7e3c of F-C09-1 the first line is scanned like every other line (state `some 0`)
+  have _ := hne
+  have := wsLinesAux_safe _ (some 0) (wsSafe_lines ls h)
   simpa using this
 
 end normalise
